@@ -63,5 +63,8 @@ def main():
     if cmd == 'sensitivity':
         from . import sensitivity
         return sensitivity.main(sys.argv[2:])
+    if cmd == 'regress':
+        from . import regress_fixes
+        return regress_fixes.main(sys.argv[2:])
     print('unknown command')
     return 2
